@@ -179,6 +179,12 @@ func ignoreClass(lines []string, p string) string {
 					return "ignored"
 				}
 			}
+		} else if ln == ".*" {
+			for _, c := range parts {
+				if strings.HasPrefix(c, ".") {
+					class = "unspecified"
+				}
+			}
 		} else if strings.HasPrefix(ln, "*.") {
 			ext := ln[1:]
 			if strings.HasSuffix(parts[len(parts)-1], ext) {
